@@ -142,6 +142,16 @@ def generate(seed, tier):
             bk, text = badsrc.make_bad(rf, src)
             op['src'] = text
             op['bad'] = bk
+        if ops and ro.random() < 0.12:
+            # the very text of the previous call (valid or not) goes through another entry point right away
+            prev = ops[-1]
+            op['src'] = prev['src']
+            op['op'] = kind = ro.choice([k_ for k_ in ('eval', 'parse', 'list_names') if k_ != prev['op']])
+            op.pop('bad', None)
+            bad = bool(prev.get('bad'))
+            if bad:
+                op['bad'] = prev['bad']
+            src_prog = prev_prog
         if kind == 'eval':
             if ro.random() < 0.08:
                 op['no_names'] = True       # the names argument is omitted altogether
@@ -159,6 +169,7 @@ def generate(seed, tier):
             op['kill_at'] = int(2 ** rf.uniform(0, 11))
         op['entropy'] = ro.randrange(2 ** 32)
         ops.append(op)
+        prev_prog = src_prog
     case = {'world': world, 'ops': ops}
     if tier == 'thorough' and rc.random() < 0.04:
         # kill-point enumeration on a short history
